@@ -222,3 +222,166 @@ def fasta_text(records, rng=None):
         else:
             lines.append(seq + "\n")
     return lines
+
+
+# ------------------------------------------------------------------------------------------------
+# names of generated input files and their order on the command line
+# ------------------------------------------------------------------------------------------------
+# (no ".csv" / ".parquet": those extensions switch the reader)
+FILE_STEMS = {
+    "mq": (["evidence", "evidence_sample2", "sample1_evidence", "Evidence_B", "evidence10", "evidence2", "combined_evidence", "msms"], ".txt"),
+    "perc": (["percolator.target.psms", "percolator.decoy.psms", "pout", "pout_decoys", "andromeda.psms", "Target_results", "decoy_results"], ".txt"),
+    "mokapot": (["mokapot.psms", "mokapot.decoy.psms", "run2.mokapot.psms", "Run1.mokapot.psms"], ".txt"),
+    "fragpipe": (["psm", "psm_rep2", "exp1_psm", "PSM_b"], ".tsv"),
+    "sage": (["results.sage", "results2.sage", "Lib.results.sage", "a_results.sage"], ".tsv"),
+    "diann": (["report", "report_lib2", "Report_B", "diann_report"], ".tsv"),
+    "fasta": (["uniprot_human", "contaminants", "db", "isoforms", "Swissprot_2023", "a_extra_entries"], ".fasta"),
+    "map": (["peptide_protein_map", "map_lysc", "Map_trypsin", "digest2"], ".tsv"),
+}
+FILE_DIRS = ["run_b", "run_a", "batch2/txt", "batch10/txt", "Zebra", "a.d", "sample1/combined/txt", "sample2/combined/txt"]
+
+
+def file_names(rng, n, kind):
+    """n distinct relative paths for generated files of one kind, in the ORDER in which they are to be given on the
+    command line.  Sorted order is the exception (n = 2: 20 %, n = 3: 7 %); 30 % of the multi-file sets use ONE file name
+    in n different directories (the layout of several MaxQuant / Percolator runs)."""
+    stems, ext = FILE_STEMS[kind]
+    if n > 1 and rng.random() < 0.3:
+        stem = rng.choice(stems)
+        names = [d + "/" + stem + ext for d in rng.sample(FILE_DIRS, n)]
+    else:
+        names = []
+        while len(names) < n:
+            d = rng.choice(FILE_DIRS) + "/" if rng.random() < 0.4 else ""
+            p = d + rng.choice(stems) + ext
+            if p not in names:
+                names.append(p)
+    if n > 1 and names == sorted(names) and rng.random() < 0.6:
+        names.reverse()
+    return names
+
+
+def default_names(n, kind, seed):
+    """names for file sets whose case does not carry any (deterministic in `seed`)"""
+    import random
+
+    return file_names(random.Random("names:%s:%s:%d" % (kind, seed, n)), n, kind)
+
+
+def write_once(d, rel, writer):
+    """create d/rel (with its directories) through writer(path) unless it exists already (a file mentioned twice on
+    the command line is ONE file); returns the path"""
+    import os
+
+    p = os.path.join(d, *rel.split("/"))
+    if not os.path.exists(p):
+        os.makedirs(os.path.dirname(p), exist_ok=True)
+        writer(p)
+    return p
+
+
+# ------------------------------------------------------------------------------------------------
+# additions for process-level runs in which the list-valued options carry SEVERAL values (C07 hash-seed
+# stage): proteins duplicated under another identifier, a database split over several FASTA files so that
+# proteins sharing peptides land in different files, Percolator-style evidence, peptide-protein map files.
+# Nothing above is changed by these helpers.
+# ------------------------------------------------------------------------------------------------
+def add_duplicates(rng, db, n=None):
+    """db plus copies of `n` (default 1-2) of its proteins: same sequence, another identifier (the way a reviewed
+    and an unreviewed database list one protein twice).  Copies are appended; identifiers stay distinct."""
+    out = list(db)
+    have = {pid for pid, _ in db}
+    k = n if n is not None else rng.choice([1, 1, 2])
+    for pid, seq in rng.sample(db, min(k, len(db))):
+        if "|" in pid:
+            parts = pid.split("|")
+            new = "tr|A%05d|%s" % (rng.randint(0, 99999), parts[2])
+        else:
+            new = pid + rng.choice(["b", "_2", "x"])
+        if new not in have:
+            have.add(new)
+            out.append((new, seq))
+    return out
+
+
+def protein_peptides(seq, min_len=5):
+    """target and generated-decoy peptides of a protein (0 missed cleavages)"""
+    return set(tryptic(seq, min_len)) | set(tryptic(decoy_seq(seq), min_len))
+
+
+def split_database(rng, db, n_files):
+    """partition of db into at most n_files non-empty lists (database order kept inside every list): a protein goes to
+    the file with which it shares the fewest peptides (then the smallest file, then at random), so proteins that
+    share peptides - duplicates above all - land in DIFFERENT files whenever there is room."""
+    n_files = max(1, min(n_files, len(db)))
+    peps = [protein_peptides(seq) for _, seq in db]
+    owner = [None] * len(db)
+    order = list(range(len(db)))
+    rng.shuffle(order)
+    # proteins that share most go first, so that they still find an empty file
+    order.sort(key=lambda i: -sum(len(peps[i] & peps[j]) for j in range(len(db)) if j != i))
+    for i in order:
+        cost = []
+        for f in range(n_files):
+            members = [j for j in range(len(db)) if owner[j] == f]
+            cost.append((sum(len(peps[i] & peps[j]) for j in members), len(members), rng.random(), f))
+        owner[i] = min(cost)[3]
+    files = [[db[i] for i in range(len(db)) if owner[i] == f] for f in range(n_files)]
+    while any(not f for f in files):  # cannot happen often: fill an empty file from the largest one
+        big = max(files, key=len)
+        empty = next(f for f in files if not f)
+        empty.append(big.pop())
+    return files
+
+
+def shared_across_files(files):
+    """peptides (target or decoy, 0 missed cleavages) that proteins of at least two different files yield"""
+    seen = {}
+    for k, f in enumerate(files):
+        for _, seq in f:
+            for p in protein_peptides(seq):
+                seen.setdefault(p, set()).add(k)
+    return sorted(p for p, ks in seen.items() if len(ks) > 1)
+
+
+def split_psms(rng, psms, n_files):
+    """n_files non-empty lists of PSMs; some PSMs appear (with another PEP) in a second file"""
+    n_files = max(1, min(n_files, len(psms))) if psms else 1
+    files = [[] for _ in range(n_files)]
+    for k, s in enumerate(psms):
+        files[k % n_files if k < n_files else rng.randrange(n_files)].append(s)
+        if n_files > 1 and rng.random() < 0.2:
+            files[rng.randrange(n_files)].append(dict(s, pep=rng.choice(PEP_GRID)))
+    return files
+
+
+PERC_COLS = ["PSMId", "score", "q-value", "posterior_error_prob", "peptide", "proteinIds"]
+
+
+def percolator_text(psms):
+    """native Percolator output: flanked peptides, one protein per trailing column"""
+    lines = ["\t".join(PERC_COLS) + "\n"]
+    for i, s in enumerate(psms):
+        lines.append("\t".join(["raw_%s_%d_%d_1" % (s["experiment"], i, s["charge"]), "1.0", "0.01", repr(float(s["pep"])),
+                                "-." + s["peptide"] + ".-"] + list(s["proteins"])) + "\n")
+    return "".join(lines)
+
+
+def evidence_text(psms):
+    """the text write_evidence writes"""
+    lines = ["\t".join(EV_COLS) + "\n"]
+    for i, s in enumerate(psms):
+        lines.append("\t".join([f"_{s['peptide']}_", ";".join(s["proteins"]), s["proteins"][0], "100", repr(float(s["pep"])),
+                                "raw_" + s["experiment"], s["experiment"], str(s["charge"]), str(s["intensity"]), str(s["fraction"]),
+                                str(i)]) + "\n")
+    return "".join(lines)
+
+
+def peptide_protein_map_text(db, min_len=5, mc=0):
+    """a --peptide_protein_map file: peptide <tab> proteins joined by ';' (targets in database order, then decoys)"""
+    m = {}
+    for prefix, f in (("", lambda s: s), ("REV__", decoy_seq)):
+        for pid, seq in db:
+            for p in dict.fromkeys(digest_full(f(seq), "trypsin", mc, min_len, 60)):
+                m.setdefault(p, []).append(prefix + pid)
+    return "".join("%s\t%s\n" % (p, ";".join(q)) for p, q in m.items())
